@@ -379,6 +379,8 @@ End Obj.
 
 (* ================================================================== correspondence (executed at Q) *)
 Definition qeq : Q -> Q -> bool := Qeq_bool.
+(* the harness prints doubles of extreme magnitude as n * 2^e (parsing a 300-digit numeral is slow) *)
+Definition dy (n e : Z) : Q := if (0 <=? e)%Z then Qmake (n * 2 ^ e) 1 else Qmake n (Z.to_pos (2 ^ (- e))).
 Definition row_eqb := list_eqb qeq.
 Definition arr_eqb := list_eqb row_eqb.
 Definition brow_eqb := list_eqb Bool.eqb.
